@@ -15,7 +15,7 @@ package mdiff
 //@ ghost field Chunk.cl imap[int]
 //@ ghost field Chunk.cr imap[int]
 //@
-//@ pred chunkOK(c *Chunk, L []string, R []string) := c != nil && allocated(c) && 1 <= c.LStart && 1 <= c.RStart && len(c.Edits) > 0
+//@ pred chunkOK(c *Chunk, L []string, R []string) := c != nil && allocated(c) && 1 <= c.LStart && 1 <= c.RStart && len(c.Edits) > 0 && c.LStart <= c.LEnd && c.RStart <= c.REnd
 //@+     && c.cl[0] == c.LStart && c.cr[0] == c.RStart && c.cl[len(c.Edits)] == c.LEnd && c.cr[len(c.Edits)] == c.REnd
 //@+     && (forall k int :: {c.Edits[k]} 0 <= k && k < len(c.Edits) ==> c.Edits[k].Op != slice.OpEmit && editOK(c.Edits[k], L, R, slice.equal, c.cl[k] - 1, c.cr[k] - 1, c.cl[k + 1] - 1, c.cr[k + 1] - 1))
 //@
